@@ -26,10 +26,14 @@ def main():
     args = sys.argv[1:]
     tier = "quick"
     ids = []
+    cross = False
     i = 0
     while i < len(args):
         if args[i] == "--tier":
             tier = args[i + 1]; i += 2
+        elif args[i] == "--cross":
+            # instead of the rewrite's own property: every OTHER property whose harness lives in a package the patch touches
+            cross = True; i += 1
         else:
             ids.append(args[i]); i += 1
     rc, o = sh(["git", "-C", REPO, "status", "--porcelain", "--untracked-files=no"])
@@ -38,13 +42,26 @@ def main():
         return 2
     if not ids:
         ids = sorted(d for d in os.listdir(BEN) if os.path.exists(os.path.join(BEN, d, "patch.diff")))
-    resp = os.path.join(BEN, "RESULTS.json")
+    resp = os.path.join(BEN, "RESULTS_cross.json" if cross else "RESULTS.json")
+    bydir = {}
+    if cross:
+        sys.path.insert(0, os.path.join(VERIF, "tools"))
+        from props import PROPS
+        for pid, s in PROPS.items():
+            for g in s["go"]:
+                bydir.setdefault(g["dir"] or ".", set()).add(pid)
     results = json.load(open(resp)) if os.path.exists(resp) else {}
     bad = 0
     for bid in ids:
         d = os.path.join(BEN, bid)
         meta = json.load(open(os.path.join(d, "meta.json")))
         props = [meta["property"]] + meta.get("also_check", [])
+        if cross:
+            files = re.findall(r"^\+\+\+ b/(\S+)", open(os.path.join(d, "patch.diff")).read(), flags=re.M)
+            ps = set()
+            for f in files:
+                ps |= bydir.get(os.path.dirname(f) or ".", set())
+            props = sorted(ps - set(props))
         rc, o = sh(["git", "-C", REPO, "apply", "--whitespace=nowarn", os.path.join(d, "patch.diff")])
         if rc != 0:
             print("%s: patch does not apply: %s" % (bid, o.strip()[:300]))
